@@ -108,6 +108,8 @@ class ModelQuantumEngine:
         self.injected_unary: List = []
         self.connect_stalls = False             # set by the workload (per run)
         self.external_cancel = set()            # job names a third party cancels while they run
+        self.outage_until = None                # unary RPCs fail with 503 until this simulated time
+        self.outage_failures = 0
         self.job_duration = None                # job name -> simulated seconds a job stays RUNNING at least
         self.cancel_latency = 0.0               # simulated seconds a job stays CANCELLING at least
         self.connecting: List = []
@@ -310,6 +312,8 @@ class ModelQuantumEngine:
     def next_timer(self):
         ts = [j.ready_at for j in self.jobs.values() if j.state == "RUNNING" and j.ready_at > self.sim.now]
         ts += [j.cancel_at for j in self.jobs.values() if j.state == "CANCELLING" and j.cancel_at > self.sim.now]
+        if self.outage_until is not None and self.outage_until > self.sim.now:
+            ts.append(self.outage_until)
         return min(ts) if ts else None
 
     def _new_job(self, jname: str) -> "Job":
@@ -375,6 +379,14 @@ class ModelQuantumEngine:
                 exc = [gexc.PermissionDenied, gexc.InvalidArgument, gexc.ResourceExhausted][self.sim.tape.draw(3, "4xx")](f"injected {name}")
             self.unary_log.append((name, _target(req), type(exc).__name__, "injected"))
             self.injected_unary.append(exc)
+            fut.set_exception(exc)
+            return
+        if self.outage_until is not None and self.sim.now < self.outage_until:
+            # a service outage: every unary call made during the window fails with 503, however many
+            exc = gexc.ServiceUnavailable(f"outage ({name})")
+            self.ctx.fault("unary-outage")
+            self.unary_log.append((name, _target(req), "ServiceUnavailable", "outage"))
+            self.outage_failures += 1
             fut.set_exception(exc)
             return
         try:
